@@ -787,6 +787,54 @@ func init() {
 	}
 	externals["unicode/utf8.DecodeRune"] = dec
 	externals["unicode/utf8.DecodeRuneInString"] = dec
+
+	// RuneCount / RuneCountInString / Valid / ValidString index 256-entry tables by the input
+	// byte; on symbolic bytes that would fork 256 ways per byte. They are decoded rune by rune
+	// with the class-forking decoder above instead (same results as the table-driven code:
+	// every invalid or truncated sequence counts as one rune of width 1).
+	anySym := func(bs []value) bool {
+		for _, b := range bs {
+			if _, ok := b.(*Term); ok {
+				return true
+			}
+		}
+		return false
+	}
+	count := func(fr *frame, args []value) value {
+		bs := seqOf(args[0])
+		if !anySym(bs) {
+			fr2 := &frame{i: fr.i, caller: fr.caller, fn: fr.fn}
+			return runBody(fr2, args)
+		}
+		n := 0
+		for pos := 0; pos < len(bs); n++ {
+			_, sz := fr.i.symDecodeRune(bs[pos:])
+			pos += sz
+		}
+		return n
+	}
+	externals["unicode/utf8.RuneCount"] = count
+	externals["unicode/utf8.RuneCountInString"] = count
+	valid := func(fr *frame, args []value) value {
+		bs := seqOf(args[0])
+		if !anySym(bs) {
+			fr2 := &frame{i: fr.i, caller: fr.caller, fn: fr.fn}
+			return runBody(fr2, args)
+		}
+		for pos := 0; pos < len(bs); {
+			r, sz := fr.i.symDecodeRune(bs[pos:])
+			if sz == 1 {
+				// width 1 is either ASCII or an invalid byte (RuneError)
+				if rv, ok := r.(int32); ok && rv == 0xFFFD {
+					return false
+				}
+			}
+			pos += sz
+		}
+		return true
+	}
+	externals["unicode/utf8.Valid"] = valid
+	externals["unicode/utf8.ValidString"] = valid
 }
 
 // ---- net.ParseIP / net.ParseCIDR: textual parsing is outside the claim. The harness
